@@ -24,6 +24,14 @@ fn uid(n: i64) -> Uuid {
 }
 
 fn expand_event(db: &SchedulesDb, year: &Schedule, it: &mut Interner, src: &str) -> Value {
+    // repetition counts beyond any calendar (a wrapped-around u32) would make the expansion exhaust the memory of this
+    // process, which cannot be caught: such a schedule is reported as it is, unexpanded (its conversion event fails)
+    let absurd = year.values.iter().any(|v| v.1 > 100_000)
+        || year.values.iter().filter_map(|v| db.get_week(v.0)).any(|w| w.values.iter().any(|d| d.1 > 100_000));
+    if absurd {
+        return json!({"ev": "Expand", "src": src, "periods": year.values.iter().map(|(w, c)| json!([it.id(*w), (*c).min(1_000_000)])).collect::<Vec<_>>(),
+            "weeks": [], "got": [-1], "absurd": true});
+    }
     let got = catch(std::panic::AssertUnwindSafe(|| db.get_year_as_day_sch(year.id)));
     let weeks_used: Vec<Uuid> = {
         let mut v: Vec<Uuid> = year.values.iter().map(|x| x.0).collect();
